@@ -6,13 +6,14 @@
   For every modelled `_divisions()` + task pair:  DivInv d_in parts_in → DivInv (divisionsOf op d_in) (run op parts_in),
   and the number of emitted output partitions is `npartitions op`.
 
-    C06_blockwise, C06_partitions(_unknown/_count), C06_head, C06_tail, C06_fusedio(_counterexample),
+    C06_blockwise, C06_partitions(_unknown/_count), C06_head, C06_tail, C06_fusedio(_buckets/_counterexample),
     C06_repartition_fewer / _divisions (from C13), C06_concat, C06_merge_divisions, C06_fromarray, C06_frompandas
     C06_len_pushdown_table, C06_len_rowcount_*, C06_len_concat, C06_size, C06_len_frompandas(_counterexample),
     C06_len_parquet_counterexample, C06_len_elemwise_partial(_counterexample)
 -/
 import DxModel.Lemmas.Divisions
 import DxModel.Lemmas.FromArray
+import DxModel.Lemmas.FusedIO
 import DxModel.Lemmas.Head
 import DxModel.Lemmas.HeadPush
 import DxModel.Generated.LengthFlags
@@ -108,18 +109,30 @@ example : headDivisions [0, 10, 20, 30] 2 = some [0, 20] ∧ headDivisions [0, 1
 
 /-! ### 4. FusedIO -/
 
-/-- **FusedIO** as a selection followed by a merge of consecutive selected partitions: for a strictly ascending
-    `_partitions` and ANY boundary list over its positions (monotone from 0 to `len(P)`, strictly increasing —
-    `_fusion_buckets` produces `[0, step, 2·step, …, len(P)]`, T2-checked), the divisions "first division of every
-    bucket + division AFTER the last bucket" (D5) are truthful for the concatenated buckets. -/
-theorem C06_fusedio (full : List Int) (n : Nat) (parts : Nat → List Row) (P : List Nat) (bs : List Nat)
-    (hinv : DivInv full n parts) (hs : strictAsc P = true) (hne : P ≠ []) (hP : ∀ p ∈ P, p < n)
-    (hb : boundariesOK bs P.length = true) (hm : strictMono bs = true) :
-    ∃ d' d'', selDivisions full P = .ok (some d') ∧ fewerDivisions d' bs = some d'' ∧
-      DivInv d'' (bs.length - 1) (fewerSem bs (sel P parts)) := by
+/-- `_fusion_buckets` is an ordered partition of `_partitions` (any selection, any step ≥ 1). -/
+theorem C06_fusedio_buckets (P : List Nat) (step : Nat) (hs : 1 ≤ step) :
+    (buckets P step).flatten = P ∧ (buckets P step).length = nChunks P.length step :=
+  ⟨buckets_flatten P step hs, buckets_length P step⟩
+
+/-- **FusedIO** (`_fusion_buckets`, `_divisions` as fixed by D5, `_task`): for a strictly ascending `_partitions`
+    (any gaps) and every bucket size, the reported divisions — first division of every bucket + the division AFTER
+    the last bucket — are truthful for the concatenated buckets, and there is one output per bucket. -/
+theorem C06_fusedio (full : List Int) (n : Nat) (parts : Nat → List Row) (P : List Nat) (step : Nat)
+    (hinv : DivInv full n parts) (hs : strictAsc P = true) (hne : P ≠ []) (hP : ∀ p ∈ P, p < n) (hstep : 1 ≤ step) :
+    ∃ d, fusedDivisions full P step = some d ∧
+      DivInv d (buckets P step).length (fusedRows P step parts) := by
   obtain ⟨d', hd', hinv'⟩ := C06_partitions full n parts P hinv hs hne hP
-  obtain ⟨d'', hd'', hinv''⟩ := fewer_divisions_truthful d' bs P.length (sel P parts) hb hm hinv'
-  exact ⟨d', d'', hd', hd'', hinv''⟩
+  have hPpos : 1 ≤ P.length := List.length_pos_iff.mpr hne
+  have ⟨hb, hm⟩ := bucketBounds_ok P.length step hstep hPpos
+  obtain ⟨d'', hd'', hinv''⟩ := fewer_divisions_truthful d' (bucketBounds P.length step) P.length (sel P parts) hb hm hinv'
+  have hbl : (bucketBounds P.length step).length - 1 = (buckets P step).length := by
+    simp [bucketBounds, pyRange_length, buckets_length]
+  refine ⟨d'', fusedDivisions_eq_fewer full P step hstep n hinv.len hP hne d' d'' hd' hd'', ?_⟩
+  rw [← hbl]
+  apply divInv_congr (p := fewerSem (bucketBounds P.length step) (sel P parts)) _ hinv''
+  intro j hj
+  rw [hbl, buckets_length] at hj
+  exact fusedRows_eq_fewerSem P step hstep parts j hj
 
 -- the transliterated `_fusion_buckets` / `_divisions` / `_task` coincide with that reading on an instance …
 example : buckets [1, 3, 4, 6, 7] 2 = [[1, 3], [4, 6], [7]] ∧ bucketBounds 5 2 = [0, 2, 4, 5] ∧
@@ -242,6 +255,9 @@ theorem C06_size (isFrame : Bool) (ncols rows : Nat) (h : 1 ≤ ncols) (hs : isF
   · have : ncols = 1 := by omega
     subst this
     cases isFrame <;> simp
+
+/-- (finding) a frame WITHOUT columns: `df[[]].size` is answered by `Len` (6 for six rows), pandas says 0 -/
+theorem C06_size_counterexample : (sizeRule true 0).1 * 6 = 6 ∧ 0 * 6 = 0 := by decide
 
 /-- **FromPandas._get_lengths**: unfiltered — the partition sizes; filtered by a strictly ascending
     `_partitions` — the sizes of the selected partitions, in order. -/
